@@ -4,7 +4,8 @@
 # /repo's working tree is not touched. Prints one line per seed; exit 1 if a seed is missed.
 cd /verif
 export GOFLAGS=-mod=mod GOPROXY=off GOSUMDB=off GOTOOLCHAIN=local
-out=/verif/out/corpus; rm -rf $out; mkdir -p $out
+# optional arguments: seed ids (default: all)
+out=/verif/out/corpus; [ $# -gt 0 ] && out=/verif/out/corpus-sel; rm -rf $out; mkdir -p $out
 one() {
   id=$1
   d=/verif/seeded/$id
@@ -26,8 +27,8 @@ one() {
   if [ -n "$res" ]; then echo "$id detected: $res"; else echo "$id MISSED"; fi
 }
 n=0
-for d in seeded/*/; do
-  id=$(basename $d)
+list="$@"; [ -z "$list" ] && list=$(ls seeded)
+for id in $list; do
   one $id > $out/$id.result &
   n=$((n+1))
   if [ $((n % 3)) -eq 0 ]; then wait; fi
